@@ -116,13 +116,15 @@ def apply_ops(structure, ops):
             i = 0
             res = s.residues
             while i < len(res):
-                run = rng.choice([1, 1, 2, 3, 4]) if rng.random() < op.get("frac", 0.3) else 1
+                # "runs": candidate run lengths; long runs (a whole hairpin numbered 47, 47A ... 47Q, as tRNA
+                # variable arms are) put base-PAIRED residues on one number
+                run = rng.choice(op.get("runs", [1, 1, 2, 3, 4])) if rng.random() < op.get("frac", 0.3) else 1
                 j = i
                 while j + 1 < len(res) and j + 1 - i < run and res[j + 1].chain == res[i].chain and res[j + 1].auth is not None and res[i].auth is not None and res[j + 1].model == res[i].model:
                     j += 1
                 if j > i and (res[i].auth.icode in (None, " ", "?")):
                     for t in range(i, j + 1):
-                        plan[t] = (res[i].auth.number, None if t == i else "ABCDE"[t - i - 1])
+                        plan[t] = (res[i].auth.number, None if t == i else "ABCDEFGHIJKLMNOPQRSTUVWXYZ"[t - i - 1])
                 i = j + 1
 
             def relabel(ri, r, plan=plan):
@@ -150,6 +152,60 @@ def apply_ops(structure, ops):
                 return lab, auth
 
             s = rebuild(s, relabel=relabel)
+        elif k == "split-residue":
+            # the base atoms of some nucleotides are listed after the rest of their chain (as files that append
+            # alternative conformers / re-refined bases do): the reader then yields TWO Residue3D objects that
+            # carry the same identifiers
+            from rnapolis import tertiary
+            from vmon.oracles import g3d as _g
+
+            rng = random.Random(op["seed"])
+            out, tails = [], []
+            for r in s.residues:
+                base_names = set(_g.BASE_ATOMS.get(r.one_letter_name, []))
+                base = tuple(a for a in r.atoms if a.name in base_names)
+                rest = tuple(a for a in r.atoms if a.name not in base_names)
+                if base and rest and rng.random() < op.get("frac", 0.2):
+                    out.append(tertiary.Residue3D(r.label, r.auth, r.model, r.one_letter_name, rest))
+                    tails.append(tertiary.Residue3D(r.label, r.auth, r.model, r.one_letter_name, base))
+                else:
+                    out.append(r)
+            s = tertiary.Structure3D(out + tails)
+        elif k == "auth-collide":
+            # every chain gets the author chain id of the first one while the label identifiers stay distinct (a
+            # converted PDB file with a repeated chain id): different nucleotides share author chain / number / icode
+            from rnapolis.common import ResidueAuth
+
+            first = next((r.auth.chain for r in s.residues if r.auth is not None), None)
+
+            def relabel(ri, r, first=first):
+                if r.auth is None or r.label is None:
+                    return r.label, r.auth
+                return r.label, ResidueAuth(first, r.auth.number, r.auth.icode, r.auth.name)
+
+            s = rebuild(s, relabel=relabel)
+        elif k == "split-chain":
+            # the last `tail` residues of the first chain are listed after the next chain
+            # (modified residues / ligands of a chain listed at the end of a file): chain A, chain B, chain A
+            from rnapolis import tertiary
+
+            res = list(s.residues)
+            chains = []
+            for r in res:
+                if r.chain not in chains:
+                    chains.append(r.chain)
+            if len(chains) >= 2:
+                first = [r for r in res if r.chain == chains[0]]
+                tail = first[-min(op.get("tail", 4), max(1, len(first) // 2)):]
+                tails = set(map(id, tail))
+                out, done = [], False
+                for r in res:
+                    if id(r) in tails:
+                        continue
+                    out.append(r)
+                last_second = max(i for i, r in enumerate(out) if r.chain == chains[1])
+                out[last_second + 1:last_second + 1] = tail
+                s = tertiary.Structure3D(out)
         elif k == "reverse-res":
             from rnapolis import tertiary
 
